@@ -41,6 +41,9 @@ CLAIMED = {
     "C20": ("CrossHair/z3 symbolic execution of the date+clock / date+part-of-day / dayname+date / connector rules vs. exact composition contract",
             "Trusted: the day part and the clock part alone resolve as C03-C06 state; ranking of the glued reading. Bounds: every valid date 1880..2109, every hour/minute.",
             "§5 C20"),
+    "C18": ("CrossHair/z3: a == b iff same kind and equal value fields for two symbolic artifacts with arbitrary spans; equal values hash equal (real __hash__ with an injective stand-in for the built-in)",
+            "Trusted: Python's tuple hashing maps equal tuples to equal values. Bounds: Time a over 9 presence masks (quick) / all 128 (thorough) x Time b over all 128; years 0..9999; Duration amounts 0..10^4. Printed-form injectivity/round trip: see STR obligations when present.",
+            "§5 C18"),
 }
 
 NOT_YET = {}
